@@ -1558,11 +1558,15 @@ int nanosleep(const struct timespec *req, struct timespec *rem)
   VT *me = tl_vt;
   uint64_t d = static_cast<uint64_t>(req->tv_sec) * 1000000000ULL + static_cast<uint64_t>(req->tv_nsec);
   bool eintr = false;
-  if (G.cfg.oversleep_permille > 0 && fault_draw(me, kFOversleep) % 1000 < static_cast<uint64_t>(G.cfg.oversleep_permille)) {
+  // no sleep faults while a deadlock verdict is being prepared: the grace phase gives every spinning thread a bounded number of steps to
+  // show progress, and a thread that oversleeps by a factor of up to 10^4 inside it would use up the others' budget without ever being
+  // scheduled (seen once: retry number 0, two spurious CAS failures in a row, then an 80 ms oversleep -> false deadlock verdict)
+  const bool sleep_faults = !G.in_grace && !me->graced;
+  if (sleep_faults && G.cfg.oversleep_permille > 0 && fault_draw(me, kFOversleep) % 1000 < static_cast<uint64_t>(G.cfg.oversleep_permille)) {
     d = d * (1 + fault_draw(me, kFOversleep) % 10000);
     G.res.faults[kFOversleep]++;
   }
-  if (G.cfg.eintr_permille > 0 && rem != nullptr && fault_draw(me, kFEintr) % 1000 < static_cast<uint64_t>(G.cfg.eintr_permille)) {
+  if (sleep_faults && G.cfg.eintr_permille > 0 && rem != nullptr && fault_draw(me, kFEintr) % 1000 < static_cast<uint64_t>(G.cfg.eintr_permille)) {
     eintr = true;
     G.res.faults[kFEintr]++;
   }
